@@ -31,7 +31,7 @@ def main():
     tier = "quick"
     if "--tier" in args:
         i = args.index("--tier"); tier = args[i + 1]; del args[i:i + 2]
-    src, sid, props = Path(args[0]), args[1], args[2:]
+    src, sid, props = Path(args[0]).resolve(), args[1], args[2:]
     wt, vc = Path(f"/tmp/wt-{sid}"), Path(f"/tmp/v-{sid}")
     sh(f"git -C /repo worktree remove --force {wt}"); shutil.rmtree(vc, ignore_errors=True)
     assert sh(f"git -C /repo worktree add -q --detach {wt} HEAD").returncode == 0
